@@ -14,7 +14,7 @@ EXPLANATION = (
     "comment of every function documenting that setter (R3); Difficulty::inspect and InspectDifficulty::"
     "into_difficulty are field-complete copies through same-named fields/setters (R4); the private field written "
     "by setter S is the one get_S reads and inspect() exposes as InspectDifficulty.S, holding clamp(param) or the "
-    "parameter (R5); every attribute-builder chain a calculator drives to build()/hit_windows() goes through .difficulty(..) with no setting setter before it — a setter placed before the funnel makes a setting relevant for a mode that documents it as ignored (R6). 'Irrelevant setter leaves the result untouched' beyond the no-op arms is NOT decided.")
+    "parameter (R5); every attribute-builder chain a calculator drives to build()/hit_windows() goes through .difficulty(..) with no setting setter before it — a setter placed before the funnel makes a setting relevant for a mode that documents it as ignored (R6). R7: for every no-op arm of a Performance setting the mode's own code never calls Difficulty::get_<setting> (the attribute builder's funnel may read the four slots for every mode, nothing else). 'Irrelevant setter leaves the result untouched' beyond the no-op arms is NOT decided.")
 
 DIFF = 'any::difficulty::Difficulty'
 INSPECT = 'any::difficulty::inspect::InspectDifficulty'
